@@ -10,7 +10,7 @@ import os, sys, json, random, subprocess, re, shutil, glob
 from fractions import Fraction
 from common import *
 
-N_THEOREMS = 47
+N_THEOREMS = 48
 
 # ------------------------------------------------------------------------------------------- cases
 # A case is a dict; numbers are ints k meaning k/8, or 'I' / '-I'.
